@@ -66,11 +66,14 @@ pub const NADDR: usize = 5;
 pub const NE: usize = 8;
 #[cfg(not(feature = "ne8"))]
 pub const NE: usize = 4;
-#[cfg(feature = "ew64")]
+/// ew160: the smart account's ContextRuleAdded event with vectors of capacity 21 (139 words; C20 limit harnesses)
+#[cfg(feature = "ew160")]
+pub const EW: usize = 160;
+#[cfg(all(feature = "ew64", not(feature = "ew160")))]
 pub const EW: usize = 64;
-#[cfg(all(feature = "ew32", not(feature = "ew64")))]
+#[cfg(all(feature = "ew32", not(any(feature = "ew64", feature = "ew160"))))]
 pub const EW: usize = 32;
-#[cfg(not(any(feature = "ew32", feature = "ew64")))]
+#[cfg(not(any(feature = "ew32", feature = "ew64", feature = "ew160")))]
 pub const EW: usize = 10;
 /// foreign-call log
 #[cfg(feature = "nc12")]
